@@ -19,9 +19,12 @@ are claimed in MANIFEST.json (C15 at level `other`, the rest at level `proof`).
   explicit fuel bound), `cbldm_optimal`, `ckk_optimal` (both managers, and the generator's last yield),
   `bc_optimal` (bin completion's search is optimal: Martello–Toth dominance formalised as `SDom`, completeness of
   `find_bin_completions`, soundness of both prunes), validity of CKK / SNP / RNP (k ≤ 5), `heap_refines_pure`,
-  all of C17's formulation theorems, all textbook equalities of C14, naturality for CG and CBLDM, scaling for multifit.
-* Still only certified (verified oracle on every run, no theorem): the sharp constants of C08 (4/3−1/(3k) for KK,
-  (3k−1)/(4k−2), 1.22+2^−it), C09 (1.7, 11/9) and C10 (3/4·OPT−4); anything about CBC; CPython set order;
+  all of C17's formulation theorems, all textbook equalities of C14, naturality for CG and CBLDM, scaling for multifit,
+  and the sharp approximation constants 4/3 − 1/(3k) for LPT and for Karmarkar–Karp (`LPT43`, `KK43`), 2/3·(OPT−1) and
+  3/4·OPT − 4 for the covering algorithms (`Cover23`, `Cover34`: parametrised staircase weightings found by the provers).
+* Still only certified (verified oracle on every run, no theorem): LPT's exact max-min ratio (3k−1)/(4k−2) in one regime
+  (2k/(3k−1) proved), multifit's 1.22 (4/3 proved), C09's absolute ⌊1.7·OPT⌋ (+1 proved) and 11/9 (3/2 and (4·OPT+1)/3
+  proved); anything about CBC; CPython set order;
   interpreter-level state (C15).  Items in progress are listed per property below as `partial`.
 * One more known finding: **KF5** (C11): with `use_heuristic_3=True` and `MinimizeLargestSum`, when heuristic 3 fires on
   the first branch the first solution is not the LPT partition (`[1,1,2]`, 3 bins: sums `[0,2,2]` instead of `[1,1,2]`);
